@@ -44,6 +44,10 @@ def run(ctx, crate):
     rule_is_finished(ctx, crate)
     rule_on_finish_writers(ctx, crate)
     rule_status_writers(ctx, crate)
+    # "one last frame that reflects the final state ... the supplied message": every row of the rendered text is a Bar row. A row the
+    # renderer hands over as Text/Empty counts as printed text: it is not in the erase count, and in a MultiProgress it is hoisted above
+    # all bars and takes the println path that erases the kept finished bars (seed C04m: a blank line inside a finish message)
+    D.rule_line_kinds(ctx, crate)
     D.rule_finished_draws_forced(ctx, crate)
     # "visibly finished bars keep their final rendering": the rows of a reaped finished bar are kept by their wrap-aware count
     D.rule_rows_newtype(ctx, crate)
